@@ -170,9 +170,10 @@ impl Peer {
         // Sending NotInterested explicitly (this is default state) is mandatory according BEP3, but
         // Interested should be send only after Unchoke. It appears (unfortunately) that many
         // clients wait for this message (doesn't send Unchoke and send KeepAlive instead).
+        // Piece already requested from this peer also counts (peer can send Bitfield again)
         let am_interested = match chosen_index {
             Some(_) => true,
-            None => false,
+            None => self.piece_index.is_some(),
         };
 
         // Change to unchoked or not
